@@ -87,6 +87,13 @@ print(json.dumps(out))
 '''
 
 
+def IBAN_random(cc, rnd):
+    """a BBAN text of country cc (any text would do: the histories are compared with each other, not with a spec)"""
+    import random as _r
+    from schwifty import IBAN
+    return IBAN.random(cc, random=_r.Random(rnd.randrange(10 ** 6)), use_registry=True).bban
+
+
 def call_list(seed):
     import random
     from contracts import common as CC
@@ -144,6 +151,26 @@ def call_list(seed):
         calls.append(["fields", s["p"]])
         if bare:
             calls += [["rand", cc, 5, False], ["iban", s["p"], False]]
+    # the same BBAN text under every country of equal BBAN length and character classes (different layouts, national
+    # rules and bank tables): memo tables keyed by the text alone make these calls depend on their order
+    by_shape = {}
+    for cc in ccs:
+        by_shape.setdefault(tuple(CC.classes(tab[cc]["bban_spec"])), []).append(cc)
+    n_pairs = 0
+    for shape, members in sorted(by_shape.items(), key=lambda kv: (-len(kv[1]), kv[0])):
+        if len(members) < 2 or n_pairs > 60:
+            continue
+        texts = []
+        for a in members[:6]:
+            try:
+                texts.append(str(IBAN_random(a, rnd)))
+            except Exception:  # noqa: BLE001
+                pass
+        for t in texts[:3]:
+            for b in members[:6]:
+                k = 98 - (CC.Num(t + b) * 100) % 97
+                calls += [["natl", b, t], ["fields", f"{b}{k:02d}{t}"], ["iban", f"{b}{k:02d}{t}", True]]
+                n_pairs += 1
     calls += [["lookup", "DE", "43060967"], ["lookup", "DE", "01010101"], ["frombank", "FR", "30004"],
               ["frombank", "PL", "10100055"], ["bankof", "DE89370400440532013000"], ["bankof", "PL61109010140000071219812874"]]
     return calls
